@@ -15,14 +15,14 @@ def main(tier):
     b = build.vbuild("asan")
     quick = tier == "quick"
     res = core.Result()
-    n = core.scaled(250 if quick else 4000)
+    n = core.scaled(800 if quick else 8000)
     res.merge(histrun.run(PROP, b, n, {}, ORACLES, salt="h"))
     # the daemon's own injections (bounces) fail now and then: exit 53/51/31, crash, custom text, early stop
-    res.merge(histrun.run(PROP, b, core.scaled(120 if quick else 2000), {"qq_fail": 0.35}, ORACLES, salt="qf"))
+    res.merge(histrun.run(PROP, b, core.scaled(400 if quick else 4000), {"qq_fail": 0.35}, ORACLES, salt="qf"))
     # a spawner dies (EOF on its report pipe) with deliveries outstanding: nothing of them may be marked
-    res.merge(histrun.run(PROP, b, core.scaled(80 if quick else 1500), {"p_spawner_eof": 0.06, "hold_reports": 0.5}, ORACLES, salt="se"))
+    res.merge(histrun.run(PROP, b, core.scaled(300 if quick else 3000), {"p_spawner_eof": 0.06, "hold_reports": 0.5}, ORACLES, salt="se"))
     # random crashes at quiescent points, both disk variants
-    nc = core.scaled(80 if quick else 1500)
+    nc = core.scaled(300 if quick else 3000)
     res.merge(histrun.run(PROP, b, nc, {"p_crash": 0.12, "variant": "keep-all"}, ORACLES, salt="ck"))
     res.merge(histrun.run(PROP, b, nc, {"p_crash": 0.12, "variant": "lose-all-unsynced"}, ORACLES, salt="cl"))
     # crash / fault sweeps at call granularity over fixed scenarios
@@ -36,17 +36,17 @@ def main(tier):
         res.counters.inc("sweep_reference_calls", len(calls))
         for variant in (["keep-all", "lose-all-unsynced"] if (not quick or si == 0) else ["keep-all"]):
             p2 = dict(prof, variant=variant)
-            plans = histrun.crash_plans(calls, every=1 if not quick else 2)
+            plans = histrun.crash_plans(calls, every=1)
             res.merge(histrun.run_sweep(PROP, b, idx, "sw", p2, ORACLES, plans))
         if not quick or si == 0:
-            plans = histrun.fault_plans(calls, every=2 if quick else 1)
+            plans = histrun.fault_plans(calls, every=1)
             res.merge(histrun.run_sweep(PROP, b, idx, "sw", prof, ORACLES, plans))
     # failing stat() and read() of queue files inside qmail-send (logged classes t and r of the shim)
     prof2 = dict(prof, count="mtr", trace_extra="tr")
     for idx in scen[:1 if quick else 3]:
         calls, h = histrun.reference_calls_log(PROP, b, idx, "sw", prof2)
         res.counters.inc("sweep_reference_stat_read_calls", len(calls))
-        plans = histrun.fault_plans(calls, every=3 if quick else 1)
+        plans = histrun.fault_plans(calls, every=1)
         res.merge(histrun.run_sweep(PROP, b, idx, "sw", prof2, ORACLES, plans))
     # directed: deferred two-channel message, clean stop, restart with one failing stat()/read()/open() of a queue or
     # control file during the start-up scan or later (DESIGN.md 7: added after seed c04-s2)
